@@ -22,12 +22,17 @@
 (*    local struct embedding d.S (the method is promoted) -> PKGO03        *)
 (*    methCallVar gs.PM() on a package-level variable declared in another  *)
 (*    file (the referencing file does not import d) -> PKGO03              *)
+(*    methCallPS w.PSM() where PSM is a method (allow-list shape al) of a  *)
+(*    type PS that carries its own, wide @packageonly (u and v allowed):   *)
+(*    the method's list decides -> PKGO03                                  *)
 (*    typeLit, typeVar, typeField, typeParam, typeResult (PT), typeLit2    *)
 (*    (PT2) -> PKGO01 once per file and type;  plain -> un-annotated item  *)
 (*                                                                         *)
 (* L1: reported iff P # d and neither path(P) nor name(P) is in the union  *)
 (* of the lists.  Deviations: FirstLineOnly, NoNameMatch, NoDedup,         *)
-(* NoUnalias (a type reference spelled through an alias is invisible).     *)
+(* NoUnalias (a type reference spelled through an alias is invisible),     *)
+(* TypeHidesMethods (the allow-list of an annotated type replaces the      *)
+(* lists of its methods).                                                  *)
 (***************************************************************************)
 EXTENDS Integers, Sequences, FiniteSets, TLC, Json
 
@@ -38,7 +43,7 @@ VARIABLES prog, fi, ci, ph, reported, diags
 vars == <<prog, fi, ci, ph, reported, diags>>
 
 Shapes == {"none", "bare", "name", "path", "lastelem", "other", "two_in", "two_out", "dup"}
-Refs == {"callF", "funcValue", "methCall", "methCallVar", "methValue", "methCallPromoted", "methValuePromoted", "typeLit", "typeVar", "typeField", "typeParam", "typeResult",
+Refs == {"callF", "funcValue", "methCall", "methCallPS", "methCallVar", "methValue", "methCallPromoted", "methValuePromoted", "typeLit", "typeVar", "typeField", "typeParam", "typeResult",
          "typeLit2", "plain"}
 TypeRefs == {"typeLit", "typeVar", "typeField", "typeParam", "typeResult", "typeLit2"}
 Pkgs == {"d", "u", "v"}
@@ -82,7 +87,7 @@ ShapeOf(r0, al) == LET r == Base(r0) IN IF r = "typeLit2" THEN "bare" ELSE IF r 
 Allowed(P, ls) == P = "d" \/ PathOf(P) \in Union(ls) \/ NameOf(P) \in Union(ls)
 
 CodeOf(r0) == LET r == Base(r0) IN
-             CASE r \in {"callF", "funcValue"} -> "PKGO02" [] r \in {"methCall", "methCallVar", "methValue", "methCallPromoted", "methValuePromoted"} -> "PKGO03"
+             CASE r \in {"callF", "funcValue"} -> "PKGO02" [] r \in {"methCall", "methCallPS", "methCallVar", "methValue", "methCallPromoted", "methValuePromoted"} -> "PKGO03"
                [] r \in TypeRefs -> "PKGO01" [] OTHER -> "none"
 
 Cand(r, al, P) == IF ShapeOf(r, al) # "none" /\ CodeOf(r) # "none" /\ ~Allowed(P, Lines(ShapeOf(r, al), P)) THEN CodeOf(r) ELSE "none"
@@ -97,7 +102,7 @@ Reported(p, f, i) ==
      /\ (code = "PKGO01" => \A j \in 1..(i - 1) : ~(Cand(p.files[f][j], p.al, p.pkg) = "PKGO01" /\ TypeOf(p.files[f][j]) = TypeOf(r)))
 L1(p) == {<<k[1], k[2], Cand(p.files[k[1]][k[2]], p.al, p.pkg)>> : k \in {k \in Keys(p) : Reported(p, k[1], k[2])}}
 
-SeqRefs == {"typeLit", "typeVar", "typeParam", "typeLit2", "callF", "methCall", "methCallVar"}
+SeqRefs == {"typeLit", "typeVar", "typeParam", "typeLit2", "callF", "methCall", "methCallPS", "methCallVar"}
 
 InitProg ==
   \/ /\ Mode = "single"
@@ -135,6 +140,7 @@ Visit ==
   /\ LET r == CurR
          sh == ShapeOf(r, prog.al)
          code == IF "NoUnalias" \in Deviations /\ ViaAlias(r) THEN "none"
+                 ELSE IF "TypeHidesMethods" \in Deviations /\ r = "methCallPS" THEN "none"
                  ELSE IF sh # "none" /\ CodeOf(r) # "none" /\ ~IndexAllowed(prog.pkg, IndexLines(sh, prog.pkg)) THEN CodeOf(r) ELSE "none"
      IN IF code = "none" THEN UNCHANGED <<reported, diags>>
         ELSE IF code = "PKGO01" /\ ~("NoDedup" \in Deviations)
